@@ -367,3 +367,152 @@ def gen_exact_recipe(rng, families=None, small=True):
         r["rank"] = 1
         r["mean"] = rng.choice(["constant", "zero"])
     return r
+
+
+# ====================================================================== variational models
+
+from gpytorch import variational as V  # noqa: E402
+
+VAR_STRATEGIES = ["vs", "vs", "unwhitened", "batch_decoupled", "orth_decoupled", "ciq", "grid_interp", "lmc", "indep_mt"]
+VAR_DISTS = ["cholesky", "meanfield", "delta", "natural", "tril_natural"]
+
+
+class ZooSVGP(gpytorch.models.ApproximateGP):
+    def __init__(self, recipe):
+        d, m = recipe["d"], recipe["m"]
+        strat = recipe["strategy"]
+        ds = recipe["data_seed"]
+        lat = recipe.get("latents", 0)
+        vbatch = torch.Size([lat]) if strat in ("lmc", "indep_mt") else torch.Size([])
+        z = make_inputs(ds + 11, [], m, d)
+
+        def dist(kind, num, batch=vbatch):
+            if kind == "cholesky":
+                return V.CholeskyVariationalDistribution(num, batch_shape=batch)
+            if kind == "meanfield":
+                return V.MeanFieldVariationalDistribution(num, batch_shape=batch)
+            if kind == "delta":
+                return V.DeltaVariationalDistribution(num, batch_shape=batch)
+            if kind == "natural":
+                return V.NaturalVariationalDistribution(num, batch_shape=batch)
+            if kind == "tril_natural":
+                return V.TrilNaturalVariationalDistribution(num, batch_shape=batch)
+            raise ValueError(kind)
+
+        learn = recipe.get("learn_z", True)
+        vd = dist(recipe["dist"], m)
+        if strat == "vs":
+            vs = V.VariationalStrategy(self, z, vd, learn_inducing_locations=learn)
+        elif strat == "unwhitened":
+            vs = V.UnwhitenedVariationalStrategy(self, z, vd, learn_inducing_locations=learn)
+        elif strat == "batch_decoupled":
+            vs = V.BatchDecoupledVariationalStrategy(self, z, vd, learn_inducing_locations=learn)
+        elif strat == "orth_decoupled":
+            base_z = make_inputs(ds + 12, [], max(2, m - 1), d)
+            base = V.VariationalStrategy(self, base_z, V.CholeskyVariationalDistribution(base_z.shape[-2]), learn_inducing_locations=learn)
+            vs = V.OrthogonallyDecoupledVariationalStrategy(base, z, V.DeltaVariationalDistribution(m))
+        elif strat == "ciq":
+            vs = V.CiqVariationalStrategy(self, z, vd, learn_inducing_locations=learn)
+        elif strat == "grid_interp":
+            gs = recipe["grid_size"]
+            vs = V.GridInterpolationVariationalStrategy(self, gs, [(-0.2, 1.2)] * d, dist(recipe["dist"], gs**d))
+        elif strat == "lmc":
+            base = V.VariationalStrategy(self, z, vd, learn_inducing_locations=learn)
+            vs = V.LMCVariationalStrategy(base, num_tasks=recipe["tasks"], num_latents=lat, latent_dim=-1)
+        elif strat == "indep_mt":
+            base = V.VariationalStrategy(self, z, vd, learn_inducing_locations=learn)
+            vs = V.IndependentMultitaskVariationalStrategy(base, num_tasks=lat)
+        else:
+            raise ValueError(strat)
+        super().__init__(vs)
+        kbatch = list(vbatch)
+        if strat == "batch_decoupled":
+            kbatch = [2]
+        self.mean_module = _mean(recipe.get("mean", "constant"), d, kbatch)
+        base_k = _base_kernel(recipe.get("kernel", "rbf"), d, recipe.get("ard", False), kbatch)
+        self.covar_module = K.ScaleKernel(base_k, batch_shape=torch.Size(kbatch))
+
+    def forward(self, x):
+        FAULTS.hit("forward")
+        return MultivariateNormal(self.mean_module(x), self.covar_module(x))
+
+
+def build_variational(recipe):
+    """recipe -> (model with .likelihood attribute, training data x, y) in training mode, float64."""
+    torch.manual_seed(recipe.get("init_seed", 0))
+    model = ZooSVGP(recipe)
+    strat = recipe["strategy"]
+    if recipe["lik"] == "bernoulli":
+        lik = L.BernoulliLikelihood()
+    elif strat == "lmc":
+        lik = L.MultitaskGaussianLikelihood(num_tasks=recipe["tasks"])
+    elif strat == "indep_mt":
+        lik = L.MultitaskGaussianLikelihood(num_tasks=recipe["latents"])
+    else:
+        lik = L.GaussianLikelihood()
+    model.likelihood = lik
+    model = model.double()
+    return model
+
+
+def variational_data(recipe, seed=None):
+    ds = recipe["data_seed"] if seed is None else seed
+    x = make_inputs(ds, [], recipe["n"], recipe["d"])
+    strat = recipe["strategy"]
+    if strat == "lmc":
+        y = make_targets(ds, x, tasks=recipe["tasks"])
+    elif strat == "indep_mt":
+        y = make_targets(ds, x, tasks=recipe["latents"])
+    else:
+        y = make_targets(ds, x)
+    if recipe["lik"] == "bernoulli":
+        y = (y > 0).to(DT)
+    return x, y
+
+
+def gen_variational_recipe(rng, strategies=None):
+    strat = rng.choice(strategies or VAR_STRATEGIES)
+    r = {"family": "variational", "strategy": strat, "data_seed": rng.randrange(1 << 30), "init_seed": rng.randrange(1 << 30)}
+    r["d"] = rng.choice([1, 2])
+    r["m"] = rng.randint(2, 5)
+    r["n"] = rng.randint(4, 8)
+    r["dist"] = rng.choice(VAR_DISTS)
+    r["lik"] = rng.choice(["gaussian", "gaussian", "bernoulli"])
+    r["learn_z"] = rng.random() < 0.7
+    r["mean"] = rng.choice(["constant", "zero"])
+    r["kernel"] = rng.choice(["rbf", "matern25", "matern15", "rq"])
+    r["ard"] = rng.random() < 0.3
+    if strat == "unwhitened":
+        r["dist"] = "cholesky"
+    if strat == "batch_decoupled" and r["dist"] == "delta":
+        r["dist"] = "cholesky"
+    if strat in ("orth_decoupled",):
+        r["dist"] = "delta"
+    if strat == "ciq":
+        r["dist"] = rng.choice(["natural", "cholesky", "meanfield"])
+    if strat == "grid_interp":
+        r["grid_size"] = rng.choice([4, 5]) if r["d"] == 1 else 4
+        r["dist"] = rng.choice(["cholesky", "meanfield"])
+        r["learn_z"] = False
+    if strat in ("lmc", "indep_mt"):
+        r["latents"] = rng.choice([2, 3])
+        r["tasks"] = rng.choice([2, 3, 4])
+        r["lik"] = "gaussian"
+        r["dist"] = rng.choice(["cholesky", "meanfield"])
+        r["ard"] = False
+    return r
+
+
+def model_state(model, recipe):
+    """state for fresh-instance oracles of any family."""
+    if recipe["family"] == "variational":
+        return {"state_dict": {k: v.detach().clone() for k, v in model.state_dict().items()}}
+    return exact_state(model)
+
+
+def fresh_model(recipe, state):
+    if recipe["family"] == "variational":
+        f = build_variational(recipe)
+        f.load_state_dict(state["state_dict"])
+        return f
+    return fresh_exact(recipe, state)
